@@ -240,12 +240,26 @@ class MeanFieldDynamics(BaseAPIClass):
         field: complex
             The field at the time `time`.
         """
-        # Record time in mean-field system times list
+        # Validate all arguments before anything is recorded, such that a
+        # rejected `add` leaves the object unchanged
         tmp_time = _parse_time(time)
+        tmp_field = _parse_field(field)
+        if len(self._system_dynamics) != 0:
+            assert len(system_states) == len(self._system_dynamics),\
+                "Number of states to add ({}) does not match number of "\
+                "Dynamics objects in "\
+                "MeanFieldDynamics ({})".format(
+                        len(system_states), len(self._system_dynamics))
+            previous_shapes = [dynamics._shape for dynamics
+                               in self._system_dynamics]
+        else:
+            previous_shapes = [None] * len(system_states)
+        for state, previous_shape in zip(system_states, previous_shapes):
+            _parse_state(state, previous_shape)
+        # Record time in mean-field system times list
         index = _find_list_index(self._times, tmp_time)
         self._times.insert(index, tmp_time)
         # Record field in mean-field system fields list
-        tmp_field = _parse_field(field)
         self._fields.insert(index, tmp_field)
         # Create list of Dynamics (one for each system), if not already done
         if len(self._system_dynamics) == 0:
@@ -253,12 +267,6 @@ class MeanFieldDynamics(BaseAPIClass):
                                      for i in range(len(system_states))]
             self._shape_list = [dynamics.shape for dynamics
                                 in self._system_dynamics]
-        else:
-            assert len(system_states) == len(self._system_dynamics),\
-                "Number of states to add ({}) does not match number of "\
-                "Dynamics objects in "\
-                "MeanFieldDynamics ({})".format(
-                        len(system_states), len(self._system_dynamics))
         # Record state - state parsing done by Dynamics objects
         for i, system_dynamics in enumerate(self._system_dynamics):
             system_dynamics.add(time, system_states[i])
